@@ -1150,7 +1150,15 @@ class Engine:
     prev_old = st.old
     st.old = (old_env, old_snap)
     try:
-      for cl in (c.caller_ensures if c.caller_ensures is not None else c.ensures + c.defines):
+      clauses = c.caller_ensures if c.caller_ensures is not None else c.ensures + c.defines
+      if (st.__dict__.get("cong_mod") is not None and getattr(c, "congruence_mod", None) and c.caller_ensures is not None
+          and c.congruence_mod == getattr(self.cur, "congruence_mod", None)):
+        # ring pass calling a ring-mode callee over the same modulus: the callee's ring postconditions are integer
+        # identities of ITS ring execution, which is what the caller's ring execution calls (both drop `% mod`)
+        seen = {cl.text for cl in clauses}
+        clauses = list(clauses) + [cl for cl in c.ensures + c.defines
+                                   if cl.text not in seen and not (cl.props and "VALUE" in cl.props)]
+      for cl in clauses:
         if cl.text in c.caller_assumed:
           self.abstracted.add(f"assumed clause of {c.qual} (not proved from its body): {cl.text}")
         st.assume(self.truthy(st, self.ev(cl.node, st)))
